@@ -6,6 +6,7 @@ import (
 	"context"
 	"fmt"
 	"os"
+	"path/filepath"
 	"strings"
 
 	"github.com/go-spring/log"
@@ -20,6 +21,8 @@ func init() { families["c02"] = runC02 }
 func runC02(cases []string, out *bufio.Writer, _ []string) {
 	var tags []*log.Tag
 	ctx := context.Background()
+	base, _ := os.MkdirTemp("/var/tmp", "verif-c02-")
+	defer os.RemoveAll(base)
 	for _, line := range cases {
 		f := strings.Fields(line)
 		if f[0] == "u" {
@@ -29,21 +32,39 @@ func runC02(cases []string, out *bufio.Writer, _ []string) {
 			fmt.Fprintln(out, "u")
 			continue
 		}
-		cfg := map[string]string{}
+		cfg := map[string]string{"appender.unused.type": "Rec"}
 		var names []string
+		kinds := map[string]string{}
+		os.RemoveAll(base)
 		for _, spec := range f[1:] {
 			p := strings.Split(spec, ":")
 			name, tg := unhex(p[0]), unhex(p[1])
 			names = append(names, name)
-			cfg["appender.ap"+name+".type"] = "Rec"
-			cfg["logger."+name+".type"] = "Logger"
-			cfg["logger."+name+".appenderRef.ref"] = "ap" + name
+			kind := "L"
+			if len(p) > 2 {
+				kind = p[2]
+			}
+			kinds[name] = kind
+			switch kind {
+			case "F", "R": // the File / RollingFile logger plugins: observed through their own directory
+				dir := filepath.Join(base, name)
+				os.MkdirAll(dir, 0755)
+				cfg["logger."+name+".type"] = map[string]string{"F": "File", "R": "RollingFile"}[kind]
+				cfg["logger."+name+".fileDir"], cfg["logger."+name+".fileName"] = dir, "out.log"
+				if kind == "R" {
+					cfg["logger."+name+".rotation"] = "h"
+				}
+			case "C": // the Console logger plugin (at most one per case): told apart from the built-in console logger by its JSON layout
+				cfg["logger."+name+".type"] = "Console"
+				cfg["logger."+name+".layout.type"] = "JSONLayout"
+			default:
+				cfg["appender.ap"+name+".type"] = "Rec"
+				cfg["logger."+name+".type"] = map[string]string{"L": "Logger", "A": "AsyncLogger"}[kind]
+				cfg["logger."+name+".appenderRef.ref"] = "ap" + name
+			}
 			if tg != "" || p[1] != "-" {
 				cfg["logger."+name+".tags"] = tg
 			}
-		}
-		if len(names) == 0 {
-			cfg["appender.unused.type"] = "Rec"
 		}
 		recReset()
 		stdout := &syncBuffer{}
@@ -64,19 +85,44 @@ func runC02(cases []string, out *bufio.Writer, _ []string) {
 		log.Destroy()
 		log.Stdout = os.Stdout
 		snap := recSnapshot()
+		fileData := map[string][]byte{}
+		for _, n := range names {
+			if kinds[n] == "F" || kinds[n] == "R" {
+				ents, _ := os.ReadDir(filepath.Join(base, n))
+				for _, e := range ents {
+					b, _ := os.ReadFile(filepath.Join(base, n, e.Name()))
+					fileData[n] = append(fileData[n], b...)
+				}
+			}
+		}
 		var obs []string
 		for i := range tags {
 			id := []byte(fmt.Sprintf("<t%d>", i))
 			var got []string
 			for _, n := range names {
-				for _, it := range snap["ap"+n] {
-					if bytes.Contains(it.Data, id) {
+				switch kinds[n] {
+				case "F", "R":
+					if bytes.Contains(fileData[n], id) {
 						got = append(got, n)
+					}
+				case "C":
+					for _, l := range bytes.Split(stdout.Bytes(), []byte("\n")) {
+						if bytes.HasPrefix(l, []byte("{")) && bytes.Contains(l, id) {
+							got = append(got, n)
+						}
+					}
+				default:
+					for _, it := range snap["ap"+n] {
+						if bytes.Contains(it.Data, id) {
+							got = append(got, n)
+						}
 					}
 				}
 			}
-			if bytes.Contains(stdout.Bytes(), id) {
-				got = append(got, "default")
+			for _, l := range bytes.Split(stdout.Bytes(), []byte("\n")) {
+				if !bytes.HasPrefix(l, []byte("{")) && bytes.Contains(l, id) {
+					got = append(got, "default")
+				}
 			}
 			obs = append(obs, strings.Join(got, "+"))
 		}
